@@ -165,6 +165,30 @@ DESC = {
                 "a builder-made GenericPurl<String> whose type starts with a digit (7zip): its canonical string is refused on deserialisation"),
     "r6c16-4": ("C16", "visit_str refuses strings longer than 65535 bytes with invalid_length; FromStr and Serialize have no such limit.",
                 "a PURL string of more than 64 KiB"),
+    "r7c12-1": ("C12", "decode() first rejects any '%' not followed by two hex digits, but its digit test accepts only 0-9A-F.",
+                "a percent-escape containing a lower-case a-f (%3a, %2c): an equivalent spelling is refused"),
+    "r7c12-2": ("C12", "decode_qualifiers also accepts ';' between qualifiers; the formatter does not escape it.",
+                "a ';' in the checksum value (an algorithm name such as sha1;v2): the printed PURL is mis-split when parsed again"),
+    "r7c12-3": ("C12", "Checksum text: algorithm names are percent-decoded when read, but '%' is not escaped when written (two cooperating sites).",
+                "an algorithm name containing '%' followed by two hex digits (crc%32 is read back as crc2)"),
+    "r7c12-4": ("C12", "build() canonicalises the checksum before dropping empty qualifiers (the two steps swapped).",
+                "an empty checksum reaching build() through the builder (with_qualifier(\"checksum\", \"\"), a typed empty Checksum, a hook that blanks it): InvalidQualifier instead of the qualifier being dropped"),
+    "r7c14-1": ("C14", "GenericPurl::new no longer goes through build(): it calls the hook once, refuses an empty name and constructs the PURL directly.",
+                "the new() entry point plus a hook that inserts an empty qualifier or a non-canonical / malformed checksum"),
+    "r7c14-2": ("C14", "Same idea as r3c12-3, written independently: checksum entries sorted as finished 'algorithm:hex' strings.",
+                "two algorithm names where one is a prefix of the other and the longer continues with a digit, '-' or '.'"),
+    "r7c14-3": ("C14", "Hex validation via u8::from_str_radix on byte pairs, which accepts a leading '+'.",
+                "an even-length hash with a '+' at an even offset directly before a hex digit (sha1:+f): accepted instead of refused"),
+    "r7c14-4": ("C14", "The even-length check is applied to the summed hex length instead of per hash.",
+                "an even number of odd-length hashes in one checksum (md5:0,sha1:1)"),
+    "r7c16-1": ("C16", "The namespace-segment check 'a decoded segment may not contain /' was copied onto the name.",
+                "a name containing '/' (builder, or %2F in the input): the formatter writes %2F, which both Deserialize and from_str then refuse"),
+    "r7c16-2": ("C16", "decode_subpath and decode_namespace merged into one helper that lost the check refusing a segment that decodes to '.' or '..'.",
+                "a dots-only subpath segment with at least one %2E: pkg:generic/name#a/%2E/b parses with subpath a/./b, which serialises as #a/./b and reads back as a/b"),
+    "r7c16-3": ("C16", "with_qualifier removes the qualifier when the value is empty and build() no longer runs the retain pass (two cooperating edits).",
+                "any route that bypasses with_qualifier (typed setters, direct use of builder.parts.qualifiers, blanking after into_builder()): the PURL serialises as ?repository_url= and deserialises without it"),
+    "r7c16-4": ("C16", "A trailing-slash leniency (trim_end_matches('/')) runs before the version is split off.",
+                "a version ending in '/': pkg:generic/name@1.0%2F serialises as @1.0/ and reads back as 1.0"),
 }
 
 
@@ -186,6 +210,7 @@ def main():
     before4 = table(os.path.join(ROOT, "RESULTS-round4-before-strengthening.tsv"))
     before5 = table(os.path.join(ROOT, "RESULTS-round5-before-strengthening.tsv"))
     before6 = table(os.path.join(ROOT, "RESULTS-round6-before-strengthening.tsv"))
+    before7 = table(os.path.join(ROOT, "RESULTS-round7-before-strengthening.tsv"))
     for name, (prop, what, needs) in sorted(DESC.items()):
         d = os.path.join(ROOT, name)
         if not os.path.isdir(d):
@@ -198,10 +223,11 @@ def main():
         b4 = before4.get(name, {})
         b5 = before5.get(name, {})
         b6 = before6.get(name, {})
+        b7 = before7.get(name, {})
         meta = {
             "id": name,
             "property_broken": prop,
-            "origin": f"fresh sub-agent '{name.split('-')[0]}', change #{name.split('-')[1]}; it was given only the text of {prop} and a scratch worktree of /repo, nothing from /verif" + ("; round 2: it was also told which ideas round 1 had produced and asked for different ones" if name.startswith("r2") else "") + ("; round 3: it was also told which ideas rounds 1 and 2 had produced, and pointed at rarely exercised public API paths, call order, thresholds and continued use after a failure" if name.startswith("r3") else "") + ("; round 4: told the ideas of rounds 1-3 and asked to read the code paths end to end for small-effect defects" if name.startswith("r4") else "") + ("; round 5: told the ideas of rounds 1-4, with a focus per property: hash order / entry count / call sequences (C12), combinations of conversion, hook and input shape (C14), misbehaving sinks and sources only (C16)" if name.startswith("r5") else "") + ("; round 6: told the ideas of rounds 1-5 and asked to widen the search to the whole crate and to single build configurations" if name.startswith("r6") else ""),
+            "origin": f"fresh sub-agent '{name.split('-')[0]}', change #{name.split('-')[1]}; it was given only the text of {prop} and a scratch worktree of /repo, nothing from /verif" + ("; round 2: it was also told which ideas round 1 had produced and asked for different ones" if name.startswith("r2") else "") + ("; round 3: it was also told which ideas rounds 1 and 2 had produced, and pointed at rarely exercised public API paths, call order, thresholds and continued use after a failure" if name.startswith("r3") else "") + ("; round 4: told the ideas of rounds 1-3 and asked to read the code paths end to end for small-effect defects" if name.startswith("r4") else "") + ("; round 5: told the ideas of rounds 1-4, with a focus per property: hash order / entry count / call sequences (C12), combinations of conversion, hook and input shape (C14), misbehaving sinks and sources only (C16)" if name.startswith("r5") else "") + ("; round 6: told the ideas of rounds 1-5 and asked to widen the search to the whole crate and to single build configurations" if name.startswith("r6") else "") + ("; round 7: told the ideas of rounds 1-6 and pointed at semantic slips (escaping sets, separators, parser/formatter and builder/parser asymmetries, type parameters, into_builder state, error paths)" if name.startswith("r7") else ""),
             "change": what,
             "needs_in_order_to_manifest": needs,
             "files": {"patch": "patch.diff", "demonstration": "demo.rs (drop into purl/tests/)", "author_notes": "notes.md"},
@@ -229,6 +255,11 @@ def main():
                 "verdict": r.get("verdict"),
             },
         }
+        if b7:
+            meta["checks_before_they_were_strengthened_for_round_7"] = {
+                "note": "result with the checks at commit ee111ed (the version that met round 7)",
+                "C12": b7.get("C12"), "C14": b7.get("C14"), "C16": b7.get("C16"), "verdict": b7.get("verdict"),
+            }
         if b6:
             meta["checks_before_they_were_strengthened_for_round_6"] = {
                 "note": "result with the checks at commit 4a03e96 (the version that met round 6)",
